@@ -38,6 +38,7 @@ class Monitor:
         self.init_view = {}            # addr -> first view of the episode (from CREATED / RESET_DONE)
         self.seen_out = {}             # addr -> number of chunks already examined
         self.final = {}                # addr -> (reward, view) of the final observation of the episode
+        self.write_faults = set()      # connections on which the harness made a write fail
         self.won = set()               # attackers (addresses) whose final observation of the running episode reported Success
         self.role = {}
         self.stats = {}
@@ -316,6 +317,11 @@ class Monitor:
             if closed:
                 if nreq - nresp > 1:
                     self.hit("C01", "unanswered at close", f"connection closed with {nreq - nresp} unanswered requests")
+                elif (nreq - nresp == 1 and self.last_kind.get(addr) in ("join", "game", "reset", "garbage") and not c.reader._eof
+                      and c.reader._exception is None and addr not in self.write_faults):
+                    # the peer did nothing to end the connection (no EOF, no reset, no failing write) and did not ask to quit: the
+                    # server ended it instead of answering
+                    self.hit("C01", "closed instead of answered", f"the server closed a connection instead of answering its last request (a {self.last_kind.get(addr)} request); the peer had neither left nor asked to quit")
                 continue
             if nreq - nresp > 1:
                 self.hit("C01", "two outstanding", "more than one request outstanding on a connection")
@@ -414,6 +420,12 @@ def instrument(S, cfg, CR, goals):
         M.sent.setdefault(addr, []).append(dict(desc, _text=(text if isinstance(text, str) else repr(text))[:200]))
         return True
     S.send = send
+    orig_wf = S.write_fail
+
+    def write_fail(addr):
+        M.write_faults.add(addr)
+        return orig_wf(addr)
+    S.write_fail = write_fail
     orig_settle = S.settle
 
     def settle():
